@@ -1,8 +1,13 @@
 #!/bin/bash
-# Applies every seeded change to /repo in turn, runs the property's quick check and expects exit 1 with a VIOLATION line.
-# Writes seeded/<id>/check_current.txt. /repo must be clean; it is restored after each change.
+# Applies every seeded change in turn to a scratch worktree of /repo's HEAD (never to /repo itself), runs the property's
+# quick check against it and expects exit 1 with a VIOLATION line. Writes seeded/<id>/check_current.txt.
+# usage: seeded_regress.sh [Cxx | seed-id]      (VERIF_REGRESS_WT: scratch worktree, default /tmp/verif_regress_wt)
 cd /verif
-[ -n "$(git -C /repo status --short)" ] && { echo "/repo is not clean"; exit 2; }
+wt=${VERIF_REGRESS_WT:-/tmp/verif_regress_wt}
+git -C /repo worktree prune
+[ -d "$wt" ] && git -C /repo worktree remove --force "$wt"
+git -C /repo worktree add -q "$wt" HEAD || exit 2
+trap 'git -C /repo worktree remove --force "$wt"' EXIT
 fail=0
 for d in /verif/seeded/*/; do
   id=$(basename $d); prop=${id:0:3}
@@ -10,9 +15,9 @@ for d in /verif/seeded/*/; do
   patch=${d}patch.diff
   der=$(ls ${d}derived_patch_*.diff 2>/dev/null | head -1)
   [ -n "$der" ] && patch=$der
-  git -C /repo apply $patch || { echo "$id: patch does not apply"; fail=1; continue; }
-  ./check $prop --tier quick --no-evidence > ${d}check_current.txt 2>&1; rc=$?
-  git -C /repo checkout -- .
+  git -C "$wt" apply $patch || { echo "$id: patch does not apply"; fail=1; continue; }
+  VERIF_REPO="$wt" ./check $prop --tier quick --no-evidence > ${d}check_current.txt 2>&1; rc=$?
+  git -C "$wt" checkout -- . ; git -C "$wt" clean -fdq
   if [ $rc -eq 1 ] && grep -q "^VIOLATION property=$prop" ${d}check_current.txt; then
     echo "$id: caught ($(grep -c '^VIOLATION' ${d}check_current.txt) violation lines; $(tail -1 ${d}check_current.txt))"
   else
